@@ -510,6 +510,8 @@ type Contract struct {
 	AssumeRet []*Clause
 	YieldReq  []*SinkRule // yield-requires(a, b) E
 	Private   []string    // parameters whose pointee is not reachable by foreign code
+	Decreases map[int][]*Clause
+	Progress  map[int][]string
 }
 
 type SpecFunc struct {
@@ -653,7 +655,7 @@ func (cs *ContractSet) LoadContractFile(path, pkgPath string) error {
 			cs.PkgMode[pkgPath] = pm
 		case "func":
 			key := strings.TrimSpace(rest)
-			cur = &Contract{Key: key, Pkg: pkgPath, Invs: map[int][]*Clause{}, CloInv: map[int][]*Clause{}, Unroll: map[int]int{}}
+			cur = &Contract{Key: key, Pkg: pkgPath, Invs: map[int][]*Clause{}, CloInv: map[int][]*Clause{}, Unroll: map[int]int{}, Decreases: map[int][]*Clause{}, Progress: map[int][]string{}}
 			cs.Funcs[pkgPath+"."+key] = cur
 		case "requires", "ensures", "panics", "assume-return":
 			if cur == nil {
@@ -695,11 +697,19 @@ func (cs *ContractSet) LoadContractFile(path, pkgPath string) error {
 					parts[1] = l[:j]
 				}
 			}
+			if parts[1] == "progress" {
+				cur.Progress[n] = append(cur.Progress[n], strings.TrimSpace(parts[2]))
+				break
+			}
 			c, err := mkClause(parts[1], parts[2])
 			if err != nil {
 				return err
 			}
 			c.Loop = n
+			if parts[1] == "decreases" {
+				cur.Decreases[n] = append(cur.Decreases[n], c)
+				break
+			}
 			if word == "closure" {
 				cur.CloInv[n] = append(cur.CloInv[n], c)
 			} else {
